@@ -133,11 +133,32 @@ func primitiveToString(v any) string {
 	return fmt.Sprint(v)
 }
 
+// joinProperties renders the properties of an object in the order of their names.
+func joinProperties(object map[string]any, keyValueSep, sep string) string {
+	names := make([]string, 0, len(object))
+	for name := range object {
+		names = append(names, name)
+	}
+	sort.Strings(names)
+	strValues := make([]string, 0, len(object))
+	for _, name := range names {
+		strValues = append(strValues, name+keyValueSep+primitiveToString(object[name]))
+	}
+	return strings.Join(strValues, sep)
+}
+
 // defaultValueToString renders a default value for a header or cookie: arrays are
-// comma separated (styles simple and form without explode), anything else is printed as is.
-func defaultValueToString(value any) string {
-	if values, ok := value.([]any); ok {
-		return joinValues(values, ",")
+// comma separated (styles simple and form without explode), objects are written as
+// name,value,name,value or (explode) name=value,name=value, anything else is printed as is.
+func defaultValueToString(value any, explode bool) string {
+	switch t := value.(type) {
+	case []any:
+		return joinValues(t, ",")
+	case map[string]any:
+		if explode {
+			return joinProperties(t, "=", ",")
+		}
+		return joinProperties(t, ",", ",")
 	}
 	return primitiveToString(value)
 }
@@ -158,6 +179,19 @@ func populateDefaultQueryParameters(q url.Values, parameterName string, value an
 				sep = "|"
 			}
 			q.Add(parameterName, joinValues(t, sep))
+		}
+	case map[string]any:
+		switch {
+		case style == openapi3.SerializationDeepObject:
+			for name, v := range t {
+				q.Add(parameterName+"["+name+"]", primitiveToString(v))
+			}
+		case explode:
+			for name, v := range t {
+				q.Add(name, primitiveToString(v))
+			}
+		default:
+			q.Add(parameterName, joinProperties(t, ",", ","))
 		}
 	default:
 		q.Add(parameterName, primitiveToString(value))
@@ -200,7 +234,8 @@ func ValidateParameter(ctx context.Context, input *RequestValidationInput, param
 	}
 
 	// Set default value if needed
-	if !options.SkipSettingDefaults && value == nil && schema != nil {
+	// (the object decoders return an empty map, not nil, for a parameter that was not sent)
+	if !options.SkipSettingDefaults && isNilValue(value) && schema != nil {
 		value = schema.Default
 		for _, subSchema := range schema.AllOf {
 			if subSchema.Value.Default != nil {
@@ -233,7 +268,7 @@ func ValidateParameter(ctx context.Context, input *RequestValidationInput, param
 					req.Header = make(http.Header) // a request assembled by hand may have none
 				}
 				// (a header sent with an empty value reads as not supplied: the default takes its place)
-				req.Header.Set(parameter.Name, defaultValueToString(value))
+				req.Header.Set(parameter.Name, defaultValueToString(value, parameter.Explode != nil && *parameter.Explode))
 			case openapi3.ParameterInCookie:
 				if req.Header == nil {
 					req.Header = make(http.Header)
@@ -250,7 +285,7 @@ func ValidateParameter(ctx context.Context, input *RequestValidationInput, param
 				}
 				req.AddCookie(&http.Cookie{
 					Name:  parameter.Name,
-					Value: defaultValueToString(value),
+					Value: defaultValueToString(value, false),
 				})
 			}
 		}
